@@ -155,4 +155,22 @@ theorem conditions_notBefore_bounds (env : Trans.Env) (req : Trans.IdpAuthnReque
   rw [Int.max_def] at h
   split at h <;> omega
 
+/-! ### the header of the Response the IdP builds (`IdpAuthnRequest.MakeResponse`, the statement `response := &Response{…}`; the
+    nested Issuer and Status literals and the IssueInstant are outside the translation) -/
+
+/-- C06: the Response is addressed to the selected endpoint's location *as the string that was registered* (no parse / print round
+    trip), answers the request's own ID, and is version 2.0 -/
+theorem responseHeader_fields (env : Trans.Env) (req : Trans.IdpAuthnRequest) (ep : Trans.IndexedEndpoint)
+    (hep : req.ACSEndpoint = some ep) :
+    ∃ resp, Trans.responseHeader env req = .ok (some resp, none) ∧
+      resp.Destination = ep.Location ∧ resp.InResponseTo = req.Request.ID ∧ resp.Version = "2.0" ∧ resp.ID = env.freshID := by
+  unfold Trans.responseHeader
+  simp [hep]
+
+/-- without a selected endpoint `MakeResponse` does not build a Response: it panics on the nil endpoint -/
+theorem responseHeader_needs_endpoint (env : Trans.Env) (req : Trans.IdpAuthnRequest) (h : req.ACSEndpoint = none) :
+    Trans.responseHeader env req = .panic "nil dereference" := by
+  unfold Trans.responseHeader
+  simp [h]
+
 end SamlVerif.TransServe
